@@ -949,6 +949,41 @@ func main() {
 	}
 	b.WriteString("]\n\n")
 
+	// Go-syntax quoting in what the protocol services send
+	b.WriteString("/-- uses of Go's own string quoting (strconv.Quote*, the %q verb) in the IMAP, LMTP and SASL packages: its escapes (\\x.., \\u...., \\t) are not those of an IMAP quoted string or of any of the three protocols -/\ndef goQuoting : List Bytes := [\n")
+	{
+		var uses []string
+		for pkg, fs := range pkgs {
+			dir := pkgDir[pkg]
+			if !(strings.Contains(dir, "/internal/server") || strings.Contains(dir, "/internal/sasl") || strings.Contains(dir, "/internal/delivery/lmtp")) {
+				continue
+			}
+			for name, fd := range fs {
+				if strings.HasPrefix(funcFile[pkg+"."+name], "testing_") {
+					continue
+				}
+				ast.Inspect(fd.Body, func(n ast.Node) bool {
+					switch x := n.(type) {
+					case *ast.SelectorExpr:
+						if c := src(x); strings.HasPrefix(c, "strconv.Quote") || c == "strconv.AppendQuote" {
+							uses = append(uses, pkg+"."+name+" "+c)
+						}
+					case *ast.BasicLit:
+						if x.Kind == token.STRING && strings.Contains(x.Value, "%q") {
+							uses = append(uses, pkg+"."+name+" %q")
+						}
+					}
+					return true
+				})
+			}
+		}
+		sort.Strings(uses)
+		for _, u := range uses {
+			fmt.Fprintf(&b, "  %s,\n", lb(u))
+		}
+	}
+	b.WriteString("]\n\n")
+
 	// calls that end the process from inside the service packages (not cmd/*, not the test-support files)
 	b.WriteString("structure ExitFact where\n  pkg : Bytes\n  inFunc : Bytes\n  call : Bytes\nderiving Repr\n\n")
 	b.WriteString("def exitCalls : List ExitFact := [\n")
